@@ -182,12 +182,13 @@ def align_case(col, seed):
             seen.add(t0)
             out.append((base + len(out) + 1, t0, t1, 1))
         return out
-    P = pop(rng.randint(1, 4), 0, 2)
-    S = pop(rng.randint(1, 5), 100, 3)
+    P = pop(rng.randint(1, 4), 0, rng.choice([2, 2, 6]))
+    S = pop(rng.randint(1, 5), 100, rng.choice([3, 1, 0]))
     # align documents that secondaries completely overlapped by others must be excluded: keep (t0,t1) both increasing
     S.sort(key=lambda f: f[1])
     S = [f for k, f in enumerate(S) if all(f[2] > g[2] for g in S[:k])]
-    fail = set(rng.sample([f[0] for f in P + S], rng.choice([0, 0, 1])))
+    pool = [f[0] for f in P] * 2 + [f[0] for f in S]               # unreadable primaries are the delicate case
+    fail = set(rng.sample(pool, rng.choice([0, 1, 1]))) if pool else set()
     skip = bool(fail) and rng.random() < 0.7
     ta, tb = Tree(P, emb, "flat", "fullend"), Tree(S, emb, "Y", "fullend")
     log = EventLog()
@@ -370,7 +371,7 @@ def run(ctx):
                 "INVARIANT CacheMinimal\nINVARIANT ErrorsOnlyFromFailures\nINVARIANT PrefixRight\nPROPERTY Terminates\n" % (2 if quick else 3))
     ctx.tlc(d, "AlignDesign", "MCAlign.cfg", workers=16, timeout=2400)
     pmap(ctx, empty_selection, [0], procs=1)
-    pmap(ctx, align_case, [ctx.seed * 100 + i for i in range(40 if quick else 600)])
+    pmap(ctx, align_case, [ctx.seed * 100 + i for i in range(160 if quick else 1500)])
     pmap(ctx, process_pool_run, [ctx.seed * 7 + i for i in range(4 if quick else 40)], procs=1)
 
 
